@@ -274,7 +274,7 @@ theorem handle_app_flags (O : Session.Ops Dec) (m : Bool) (s : Session.St Dec) (
           split
           · exact ⟨rfl, rfl⟩
           · split
-            · split <;> exact ⟨rfl, rfl⟩
+            · split <;> (cases d <;> exact ⟨rfl, rfl⟩)
             · split <;> exact ⟨rfl, rfl⟩
     · unfold Session.appLegacy
       split
@@ -328,7 +328,7 @@ theorem step12 (H : Crypto.Prims) (P : Prims) (L : SealLaws P) (kl : List Keylog
         intro d'; simp [Spec.TlsConnection.plainOf]
     · obtain ⟨_, _, _, h, _⟩ := hall _ (List.mem_cons_self ..); cases h
   | ccs =>
-    obtain ⟨a1, a2, a3, a4, a5, _, a7⟩ := handleRecord_ccs (Pipeline.ops H P kl) false s
+    obtain ⟨a1, a2, a3, a4, a5, _, a7, a8, a9⟩ := handleRecord_ccs (Pipeline.ops H P kl) false s
       ⟨record 20 ver [1], car⟩ d (record_typ 20 ver [1] car)
     have hx : x' = x := set_get x d
     rw [hx]
@@ -338,7 +338,7 @@ theorem step12 (H : Crypto.Prims) (P : Prims) (L : SealLaws P) (kl : List Keylog
       | nil =>
         simp only [List.map_nil, List.nil_append, List.cons.injEq, true_and] at hl
         subst hl
-        refine ⟨hs.of_eq a1 a2 a3, Or.inr ⟨a4, hrest⟩, a5, ?_, by omega, by omega⟩
+        refine ⟨hs.of_eq a1 a2 a3 a8 a9, Or.inr ⟨a4, hrest⟩, a5, ?_, by omega, by omega⟩
         intro d'
         show dirPlain d' (Session.handleRecord _ false s ⟨record 20 ver [1], car⟩ d).traffic = _
         rw [a7 rfl]; simp [Spec.TlsConnection.plainOf]
@@ -500,11 +500,11 @@ theorem step13 (H : Crypto.Prims) (P : Prims) (L : SealLaws P) (kl : List Keylog
     max x'.c.seq x'.s.seq ≤ max x.c.seq x.s.seq + cost [e] := by
   intro s' x'
   rcases hsc with rfl | ⟨ms, f, rfl⟩ | ⟨pt, f, rfl⟩
-  · obtain ⟨a1, a2, a3, _, _, _, a7⟩ := handleRecord_ccs (Pipeline.ops H P kl) false s
+  · obtain ⟨a1, a2, a3, _, _, _, a7, a8, a9⟩ := handleRecord_ccs (Pipeline.ops H P kl) false s
       ⟨record 20 ver [1], car⟩ d (record_typ 20 ver [1] car)
     have hx : x' = x := set_get x d
     rw [hx]
-    refine ⟨hs.of_eq a1 a2 a3, ?_, by omega⟩
+    refine ⟨hs.of_eq a1 a2 a3 a8 a9, ?_, by omega⟩
     intro d'
     show dirPlain d' (Session.handleRecord _ false s ⟨record 20 ver [1], car⟩ d).traffic = _
     rw [a7 rfl]; simp [Spec.TlsConnection.plainOf]
